@@ -1,7 +1,8 @@
 /- C45 line-protocol driver: `lake env lean --run PorepyVerif/C45/Driver.lean`
 
-   {"op":"keys","cfg":{…six flags…},"trees":[T,…]}  →  {"keys":[rendered key strings],"eq":[[i,j],…]}
-   where `eq` lists the pairs i<j whose token lists are equal. -/
+   {"op":"keys","cfg":{…seven flags…},"trees":[T,…]}  →
+   {"keys":[rendered key strings], "eq":[[i,j],…] pairs i<j with equal token lists,
+    "wf":[well-formedness of tree i and of its token list], "lex":[lex (render key_i) = some key_i]} -/
 import PorepyVerif.Common.Wire
 import PorepyVerif.C45.Model
 open Lean PV PorepyVerif.C45
@@ -17,27 +18,33 @@ def parseDt (s : String) : R DomType :=
   | "subdomains" => pure .subdomains | "interfaces" => pure .interfaces | "boundary" => pure .boundary
   | _ => throw s!"unknown domain type {s}"
 
+def fChars (j : Json) (k : String) : R Str := do pure (← fStr j k).toList
+
 def parseProj (j : Json) : R Proj := do
-  pure ⟨← fStr j "rng", ← fNat j "rngLen", ← fStr j "dom", ← fNat j "domLen", ← fNat j "dsize",
-        ← fNat j "rsize", ← fBool j "tr"⟩
+  pure ⟨← fChars j "rng", ← fChars j "dom", ← fNat j "dsize", ← fNat j "rsize", ← fBool j "tr"⟩
 
 mutual
 partial def parseTree (j : Json) : R Tree := do
   let k ← fStr j "k"
   match k with
-  | "var" => pure (.leaf (.var (← fStr j "name") (← parseDt (← fStr j "dt")) (← fNat j "dom") (← fInt j "ts") (← fInt j "it")))
-  | "mdvar" => pure (.leaf (.mdvar (← fStr j "name") (← parseDt (← fStr j "dt")) (← fNats j "doms") (← fInt j "ts") (← fInt j "it")))
-  | "tdda" => pure (.leaf (.tdda (← fStr j "name") (← parseDt (← fStr j "dt")) (← fNats j "doms") (← fInt j "ts")))
-  | "scalar" => pure (.leaf (.scalar (← fRat j "v")))
-  | "dense" => pure (.leaf (.dense (← fNats j "shape") (← fStr j "hash")))
-  | "sparse" => pure (.leaf (.sparse (← fStr j "hash")))
+  | "var" => pure (.leaf (.var (← fChars j "name") (← parseDt (← fStr j "dt")) (← fNat j "dom") (← fInt j "ts") (← fInt j "it")))
+  | "mdvar" => pure (.leaf (.mdvar (← fChars j "name") (← parseDt (← fStr j "dt")) (← fNats j "doms") (← fInt j "ts") (← fInt j "it")))
+  | "tdda" => pure (.leaf (.tdda (← fChars j "name") (← parseDt (← fStr j "dt")) (← fNats j "doms") (← fInt j "ts")))
+  | "scalar" => pure (.leaf (.scalar (← fChars j "repr")))
+  | "dense" => pure (.leaf (.dense (← fNats j "shape") (← fChars j "hash")))
+  | "sparse" => pure (.leaf (.sparse (← fChars j "fmt") (← fNat j "rows") (← fNat j "cols") (← fChars j "hex")))
   | "proj" => pure (.leaf (.proj (← parseProj j)))
   | "plist" => pure (.leaf (.plist (← (field j "ps" >>= jList parseProj))))
   | "div" => pure (.leaf (.div (← fNat j "dim") (← fNats j "sds")))
+  | "merged" =>
+    let inner ← field j "inner" >>= jOpt jStr
+    pure (.leaf (.merged (← fChars j "name") (← parseDt (← fStr j "dt")) (← fNats j "doms") (← fChars j "mk")
+      (← fChars j "pk") (inner.map String.toList)))
   | "bin" => pure (.bin (← parseOp (← fStr j "op")) (← parseTree (← field j "a")) (← parseTree (← field j "b")))
   | "eval" =>
     let args ← field j "args" >>= jList pure
-    pure (.eval (← fStr j "fname") (← fNat j "fid") (← parseArgs args))
+    let fid ← field j "fid" >>= jOpt jNat
+    pure (.eval (← fChars j "fname") fid (← parseArgs args))
   | _ => throw s!"unknown node kind {k}"
 partial def parseArgs (l : List Json) : R Args :=
   match l with
@@ -47,7 +54,7 @@ end
 
 def parseCfg (j : Json) : R Cfg := do
   pure ⟨← fBool j "domSize", ← fBool j "evalFn", ← fBool j "timeIdx", ← fBool j "plistKeys",
-        ← fBool j "domType", ← fBool j "denseShape"⟩
+        ← fBool j "domType", ← fBool j "denseShape", ← fBool j "mergedDomType"⟩
 
 def eqPairs (ks : List (List Tok)) : List (Nat × Nat) :=
   let ix := ks.zipIdx
@@ -61,7 +68,9 @@ def step (j : Json) : R Json := do
     let ts ← field j "trees" >>= jList parseTree
     let ks := ts.map (key c)
     pure (obj [("keys", ofList Json.str (ks.map render)),
-               ("eq", ofList (fun (p : Nat × Nat) => ofNats [p.1, p.2]) (eqPairs ks))])
+               ("eq", ofList (fun (p : Nat × Nat) => ofNats [p.1, p.2]) (eqPairs ks)),
+               ("wf", ofList Json.bool ((ts.zip ks).map (fun (t, k) => wfTree t && wfList k))),
+               ("lex", ofList Json.bool (ks.map (fun k => decide (lex (renderL k) = some k))))])
   | _ => throw s!"unknown op {op}"
 
 def main : IO Unit := runPure step
